@@ -195,6 +195,24 @@ func isoDescriptors() []isoDesc {
 			err := v.Indent()
 			return v, err
 		}),
+		// the output outgrows the capacity of the value passed in: what is handed back must be
+		// the caller's own memory, whatever a later call does with recycled buffers
+		mk("format-indent-grows", func() ([]byte, error) {
+			v := jsontext.Value(`{"a":[1,2,{"b":null}],"c":"d<e>"}`)
+			err := v.Indent()
+			return v, err
+		}),
+		mk("format-escape-grows-wide", func() ([]byte, error) {
+			v := jsontext.Value(bytes.Clone(isoWide))
+			v = v[:len(v):len(v)]
+			err := v.Format(jsontext.Multiline(true), jsontext.EscapeForHTML(true), jsontext.SpaceAfterComma(true))
+			return v, err
+		}),
+		mk("format-compact-into-spare-capacity", func() ([]byte, error) {
+			v := append(make(jsontext.Value, 0, 256), ` [ 1 , {"k" : "<v>"} ] `...)
+			err := v.Compact()
+			return v, err
+		}),
 		mk("appendformat", func() ([]byte, error) { return jsontext.AppendFormat([]byte("pre"), isoWide, jsontext.Multiline(true)) }),
 		mk("isvalid-wide-dup", func() ([]byte, error) {
 			return []byte(fmt.Sprint(jsontext.Value(isoWideDup).IsValid(), jsontext.Value(isoWide).IsValid())), nil
@@ -238,7 +256,7 @@ func isoDescriptors() []isoDesc {
 			Pad string
 			N   int8
 		}
-		err := jsonv2.UnmarshalRead(&scriptedReader{data: []byte(`{"Pad":"`+strings.Repeat("p", 200)+`","N":3000000}`), chunks: []int{64}}, &v)
+		err := jsonv2.UnmarshalRead(&scriptedReader{data: []byte(`{"Pad":"` + strings.Repeat("p", 200) + `","N":3000000}`), chunks: []int{64}}, &v)
 		errText := fmt.Sprint(err)
 		return render(nil, err), func() bool { return fmt.Sprint(err) == errText }
 	}})
